@@ -180,8 +180,8 @@ TH_RULE = ('one run = 2-8 real threads (quick: 2-5), each executing its own seed
            'bodies, between operations) with uniform / sticky / priority-with-change-points policies; the lock model blocks writers behind readers and vice versa; '
            'oracles: per-thread single-threaded expectations, no deadlock (no runnable thread), progress within 200000 decisions, and in the ThreadSanitizer build zero race '
            'reports while the hand-off itself is invisible to TSan; non-trivial = at least one context switch; distinct = event-log hashes (include the schedule hash)')
-TH_WORLD = dict(world='threads', variants=['plain', 'tsan'], quick=dict(count=60000, time_limit=90, variant_share={'plain': 0.6, 'tsan': 0.4}),
-                thorough=dict(count=3000000, time_limit=900, variant_share={'plain': 0.5, 'tsan': 0.5}))
+TH_WORLD = dict(world='threads', variants=['plain', 'tls', 'tsan'], quick=dict(count=80000, time_limit=90, variant_share={'plain': 0.4, 'tls': 0.25, 'tsan': 0.35}),
+                thorough=dict(count=3000000, time_limit=900, variant_share={'plain': 0.35, 'tls': 0.2, 'tsan': 0.45}))
 PROPS.update({
     'C18': dict(level='exploration', worlds=[TH_WORLD], rule=TH_RULE,
                 components=dict(real_code=CB_COMPONENTS['real_code'][:2],
